@@ -16,6 +16,8 @@ UNIVERSES = [
     [-5, 0, 32767, 32768],
     [-2, 1, 2 ** 31 - 1, 2 ** 31],
 ]
+# non-integer category values (tests/test_iindexes_nonint.py): the operations that do no arithmetic on values accept them
+STR_UNIVERSES = [["a", "b", "c", "d"], ["x", "xx", "y"], ["0", "1", "10", "2"], ["A", "a", "B", "b", "~"]]
 BIG_UNIVERSES = [[0, 2 ** 31, 2 ** 40, 7], [-(2 ** 35), 0, 3, 2 ** 63 - 1], [2 ** 31 - 1, 2 ** 31, 2 ** 32, 2 ** 32 + 1]]
 
 
@@ -42,15 +44,21 @@ class Chains:
         return canonical(self.iindex, d, common)
 
     def absent(self, U):
+        if isinstance(U[0], str):
+            return "zz"
         return max(U) + 1 if max(U) < 2 ** 40 else 11
+
+    def absent2(self, U):
+        return "zzz" if isinstance(U[0], str) else self.absent(U) + 1
 
     def rand_rows(self, n, p=0.5):
         return [r for r in range(n) if self.rnd.random() < p]
 
     # ---- one chain --------------------------------------------------------------------------------
-    def chain(self, steps, big=False):
+    def chain(self, steps, big=False, strs=False):
         rnd = self.rnd
-        U = rnd.choice(BIG_UNIVERSES if big else UNIVERSES)
+        U = rnd.choice(STR_UNIVERSES if strs else BIG_UNIVERSES if big else UNIVERSES)
+        big = big or strs
         ndim = rnd.choice([1, 1, 2, 2, 2])
         rows = rnd.choice([0, 1, 2, 3, 4, 5, 7, 9, 13])
         cols = rnd.choice([1, 2, 2, 3, 3, 0])
@@ -61,14 +69,14 @@ class Chains:
             if not pool:
                 pool = [self.rand_index(U, shape)]
             idx = rnd.choice(pool)
-            op = rnd.choice(self.ops_for(idx, big))
+            op = rnd.choice(self.ops_for(idx, big, strs))
             new = getattr(self, "op_" + op)(idx, U)
             if new is not None:
                 pool.append(new)
                 if len(pool) > 4:
                     pool.pop(rnd.randrange(len(pool) - 1))
 
-    def ops_for(self, idx, big):
+    def ops_for(self, idx, big, strs=False):
         nd = len(idx.shape)
         ops = ["shift_common", "shift_common_v", "append", "update", "filtered", "copy", "reindexed_map",
                "column_stack", "set_update", "get", "items", "common_rowids", "abscissae", "eq", "to_array",
@@ -78,6 +86,9 @@ class Chains:
             ops += ["reindexed_default", "sparsity", "cube_shape"]
         if nd == 2:
             ops += ["sliced", "slices1d", "collapsed", "collapsed", "sliced"]
+        if strs:
+            # collapsed sizes its output with fit_dtype(max(precedence)): integers only, by design
+            ops = [o for o in ops if o != "collapsed"] + ["sparsity"]
         return ops
 
     # ---- operations -------------------------------------------------------------------------------
@@ -135,11 +146,11 @@ class Chains:
         rnd = self.rnd
         present = sorted(set(dense_of(idx).ravel().tolist()) | {idx.common})
         keys = [v for v in sorted(set(U + present + [self.absent(U)])) if rnd.random() < 0.6]
-        targets = U + [self.absent(U), self.absent(U) + 1, idx.common]
+        targets = U + [self.absent(U), self.absent2(U), idx.common]
         if unique:
             # injective on present values and never onto a value that stays
             m = {}
-            avail = [10 ** 6 + i for i in range(len(keys))]
+            avail = [("u%d" % i) if isinstance(U[0], str) else 10 ** 6 + i for i in range(len(keys))]
             for k in keys:
                 m[k] = avail.pop()
             return m
@@ -301,7 +312,7 @@ class Chains:
         r = rnd.random()
         if r < 0.4:
             self.rec.to_array(idx)
-        elif r < 0.7:
+        elif r < 0.7 and not isinstance(U[0], str):
             self.rec.to_array(idx, dtype=rnd.choice([np.int64, np.int64, np.float64 if False else np.int64]))
         else:
             present = sorted(set(dense_of(idx).ravel().tolist()) | {idx.common})
